@@ -2030,7 +2030,7 @@ class unyt_array(np.ndarray):
                     else:
                         inp1 = np.asarray(inp1, dtype=new_dtype) * conv
             if (
-                ufunc is floor_divide
+                ufunc in (floor_divide, divmod_)
                 and u0 is not u1
                 and u0 != u1
                 and u0.same_dimensions_as(u1)
@@ -2045,6 +2045,11 @@ class unyt_array(np.ndarray):
                 u1 = u0
             # get the unit of the result
             mul, unit = unit_operator(u0, u1)
+            if ufunc is divmod_:
+                # divmod(a, b) is (a // b, a % b): the quotient carries the
+                # quotient of the units (a pure number for operands of one
+                # dimension, which were brought to the same unit above)
+                quotient_unit = u0 / u1
             if unit_operator in (_multiply_units, _divide_units):
                 # refuse before anything is written to an out= buffer
                 if (
@@ -2095,17 +2100,18 @@ class unyt_array(np.ndarray):
         elif ufunc in (modf, divmod_):
             # same class selection as for single results: scalars are
             # quantities, anything with more than one element is an array
+            out_units = (quotient_unit if ufunc is divmod_ else unit, unit)
             out_arr = tuple(
                 (
-                    unyt_quantity(np.asarray(o), unit)
+                    unyt_quantity(np.asarray(o), ou)
                     if o.shape == ()
                     else (
-                        unyt_array(o, unit)
+                        unyt_array(o, ou)
                         if issubclass(ret_class, unyt_quantity)
-                        else ret_class(o, unit)
+                        else ret_class(o, ou)
                     )
                 )
-                for o in out_arr
+                for o, ou in zip(out_arr, out_units)
             )
         elif out_arr.shape == ():
             out_arr = unyt_quantity(np.asarray(out_arr), unit)
